@@ -144,6 +144,16 @@ UnionCellNeg(route) ==
   ELSE IF route = "compound-value-narrow-cell" THEN
     <<Set("c", MutE(WArr(WMulti(<<WInt, WFloat>>)), ArrE(<<I(1)>>))),
       Set("z", Bin("+", At(Asg("+=", V("c"), ArrE(<<F(3)>>)), I(0)), F(1))), V("z")>>
+  ELSE IF route \in {"deref-into-string-cell", "deref-as-int", "deref-into-int-param", "deref-element-into-int-cell"} THEN
+    \* what is READ through a union of cell types (mut int | mut float) is an int|float: it cannot be stored in a string cell,
+    \* used as an int, passed as an int
+    <<Set("hits", MutE(WInt, I(0))), Set("ratio", MutE(WFloat, F(5))),
+      Set("c", If(Hide(WBool, B(FALSE)), Block(<<V("hits")>>), Block(<<V("ratio")>>)))>> \o
+    (CASE route = "deref-into-string-cell" -> <<Set("d", MutE(WStr, S(<<115>>))), Asg("=", V("d"), Deref(V("c"))), Set("z", Bin("+", Deref(V("d")), S(<<33>>)))>>
+       [] route = "deref-as-int" -> <<Set("z", Bin("<<", I(1), Deref(V("c"))))>>
+       [] route = "deref-into-int-param" -> <<FnDecl("sq", <<P("n", WInt)>>, WInt, <<Ret(Bin("*", V("n"), V("n")))>>), Set("z", CallE(V("sq"), <<Deref(V("c"))>>))>>
+       [] route = "deref-element-into-int-cell" -> <<Set("cs", ArrE(<<V("hits"), V("ratio")>>)), Set("d", MutE(WInt, I(0))), Asg("=", V("d"), Deref(At(V("cs"), I(1)))), Set("z", Bin("%", Deref(V("d")), I(2)))>>)
+    \o <<V("z")>>
   ELSE
   <<Set("hits", MutE(WInt, I(0))), Set("ratio", MutE(WFloat, F(1)))>> \o
   (CASE route = "for" -> <<For("c", IterE(ArrE(<<V("hits"), V("ratio")>>)), Block(<<Asg("=", V("c"), I(0))>>))>>
@@ -152,7 +162,8 @@ UnionCellNeg(route) ==
                              CallE(V("rst"), <<V("ratio")>>)>>
      [] route = "compound" -> <<For("c", IterE(ArrE(<<V("hits"), V("ratio")>>)), Block(<<Asg("+=", V("c"), I(1))>>))>>)
   \o <<Set("z", Asg("+=", V("ratio"), F(1))), V("z")>>
-UnionCellSeq == <<"for", "index", "param", "compound", "callee-union-struct", "compound-value-narrow", "compound-value-narrow-cell">>
+UnionCellSeq == <<"for", "index", "param", "compound", "callee-union-struct", "compound-value-narrow", "compound-value-narrow-cell",
+                  "deref-into-string-cell", "deref-as-int", "deref-into-int-param", "deref-element-into-int-cell">>
 WidenSeq == SetToSeq({<<n, r>> : n \in 1..3, r \in {"param", "cellcell", "array", "closure"}})
 WidenOf(n) == CASE n = 1 -> <<WInt, I(1), IF_, F(5)>> [] n = 2 -> <<WStr, S(<<98>>), WMulti(<<WStr, WInt>>), I(3)>>
                 [] n = 3 -> <<WArr(WInt), ArrE(<<I(1)>>), WArr(IF_), ArrE(<<F(5)>>)>>
